@@ -1,9 +1,13 @@
 //! Interpreter of IR programs on the *real* Shuttle primitives.
 use crate::ir::*;
 use crate::record::log;
+use shuttle::lazy_static::Lazy;
 use shuttle::sync::atomic::{AtomicU64, Ordering};
-use shuttle::sync::{Mutex, MutexGuard, RwLock, RwLockReadGuard, RwLockWriteGuard};
-use shuttle::thread::{self, JoinHandle, Thread};
+use shuttle::sync::mpsc::{channel, sync_channel, Receiver, Sender, SyncSender, TryRecvError, TrySendError};
+use shuttle::sync::{Barrier, Condvar, Mutex, MutexGuard, Once, RwLock, RwLockReadGuard, RwLockWriteGuard};
+use shuttle::thread::{self, JoinHandle, LocalKey, Scope, Thread};
+use shuttle_engine::future::batch_semaphore::{BatchSemaphore, Fairness, TryAcquireError};
+use shuttle_engine::runtime::execution::ExecutionState;
 use std::sync::Arc;
 
 /// wrapper to move non-Send things between Shuttle tasks (everything runs on one OS thread)
@@ -15,6 +19,16 @@ pub enum Obj {
     Atomic(AtomicU64),
     Mutex(Mutex<u64>),
     RwLock(RwLock<u64>),
+    Sem(BatchSemaphore),
+    /// channels have no shared object: the endpoints live in the tasks that own them
+    Chan,
+    Condvar(Condvar),
+    Barrier(Barrier),
+    Once(Once, std::cell::Cell<u64>),
+    /// index into the pool of `thread_local!` keys
+    Tls(usize),
+    /// index into the pool of `Lazy` statics
+    Lazy(usize),
 }
 
 pub struct Ctx {
@@ -30,11 +44,192 @@ enum Guard {
     W(usize, RwLockWriteGuard<'static, u64>),
 }
 
+pub enum Tx {
+    A(Sender<u64>),
+    S(SyncSender<u64>),
+}
+
+impl Tx {
+    fn clone_tx(&self) -> Tx {
+        match self {
+            Tx::A(s) => Tx::A(s.clone()),
+            Tx::S(s) => Tx::S(s.clone()),
+        }
+    }
+}
+
+/// the channel endpoints a task owns, indexed by object index
+pub struct Handles {
+    tx: Vec<Option<Tx>>,
+    rx: Vec<Option<Receiver<u64>>>,
+}
+
+impl Handles {
+    fn empty(n: usize) -> Self {
+        Handles {
+            tx: (0..n).map(|_| None).collect(),
+            rx: (0..n).map(|_| None).collect(),
+        }
+    }
+}
+
+// NOTE the field order is the drop order when a panic unwinds through `run_task`
 struct TaskSt {
     k: usize,
     last: String,
     guards: Vec<Guard>,
+    tx: Vec<Option<Tx>>,
+    rx: Vec<Option<Receiver<u64>>>,
 }
+
+// ---------------------------------------------------------------- thread-locals and lazy statics
+// Real `shuttle::thread_local!` / `Lazy` statics are needed; a fixed pool is configured per program.
+
+#[derive(Clone)]
+enum TlsKind {
+    None,
+    Log,
+    /// pool index and name of the key touched by the destructor
+    Touch(usize, String),
+    /// object index of the mutex locked by the destructor
+    Lock(usize),
+}
+
+const TLS_POOL: usize = 4;
+const LAZY_POOL: usize = 2;
+static TLS_CFG: std::sync::Mutex<Vec<(String, TlsKind)>> = std::sync::Mutex::new(Vec::new());
+static LAZY_NAMES: std::sync::Mutex<Vec<String>> = std::sync::Mutex::new(Vec::new());
+/// task id -> body index (initializers and destructors run deep inside Shuttle calls, possibly after
+/// other tasks ran, so they look their body up by task id)
+static TID_K: std::sync::Mutex<Vec<(usize, usize)>> = std::sync::Mutex::new(Vec::new());
+/// task ids whose last `try_with` / `Lazy::get` ran the initializer
+static INIT_BY: std::sync::Mutex<Vec<usize>> = std::sync::Mutex::new(Vec::new());
+
+fn my_k() -> usize {
+    let t = me();
+    lock_std(&TID_K).iter().rev().find(|p| p.0 == t).map(|p| p.1).unwrap_or(0)
+}
+
+fn init_mark() {
+    let t = me();
+    let mut g = lock_std(&INIT_BY);
+    if !g.contains(&t) {
+        g.push(t);
+    }
+}
+
+fn init_clear() {
+    let t = me();
+    lock_std(&INIT_BY).retain(|x| *x != t);
+}
+
+fn init_take() -> bool {
+    let t = me();
+    let mut g = lock_std(&INIT_BY);
+    let r = g.contains(&t);
+    g.retain(|x| *x != t);
+    r
+}
+/// the object table of the current execution, for destructors
+static CUR_CTX: std::sync::Mutex<Option<Arc<Ss<Ctx>>>> = std::sync::Mutex::new(None);
+
+fn lock_std<T>(m: &std::sync::Mutex<T>) -> std::sync::MutexGuard<'_, T> {
+    match m.lock() {
+        Ok(g) => g,
+        Err(p) => p.into_inner(),
+    }
+}
+
+pub struct TlsVal {
+    idx: usize,
+    k: usize,
+}
+
+fn tls_init(idx: usize) -> TlsVal {
+    init_mark();
+    TlsVal { idx, k: my_k() }
+}
+
+shuttle::thread_local! {
+    static TLS0: TlsVal = tls_init(0);
+    static TLS1: TlsVal = tls_init(1);
+    static TLS2: TlsVal = tls_init(2);
+    static TLS3: TlsVal = tls_init(3);
+}
+
+fn tls_key(idx: usize) -> &'static LocalKey<TlsVal> {
+    match idx {
+        0 => &TLS0,
+        1 => &TLS1,
+        2 => &TLS2,
+        _ => &TLS3,
+    }
+}
+
+/// `LocalKey::try_with` on pool key `idx` by body `k`
+fn tls_try_with(idx: usize, _k: usize) -> &'static str {
+    init_clear();
+    match tls_key(idx).try_with(|_| ()) {
+        Ok(()) => {
+            if init_take() {
+                "init"
+            } else {
+                "seen"
+            }
+        }
+        Err(_) => "destroyed",
+    }
+}
+
+impl Drop for TlsVal {
+    fn drop(&mut self) {
+        // only the destructor runs of `thread_fn`'s pop loop are observed: values that die with
+        // the execution (failure, early stop, cleanup) are dropped in `HashMap` order
+        // (when the execution state is dropped by a failure, `EXECUTION_STATE` is no longer set)
+        match ExecutionState::try_with(|s| s.is_finished()) {
+            Ok(false) => {}
+            _ => return,
+        }
+        let (name, kind) = lock_std(&TLS_CFG)[self.idx].clone();
+        match kind {
+            TlsKind::None => {}
+            TlsKind::Log => log(format!("O {} {} dtor {}", me(), self.k, name)),
+            TlsKind::Touch(u, uname) => {
+                log(format!("O {} {} dtor {}", me(), self.k, name));
+                let r = tls_try_with(u, self.k);
+                log(format!("O {} {} touch {} {}", me(), self.k, uname, r));
+            }
+            TlsKind::Lock(mi) => {
+                log(format!("O {} {} dtor {}", me(), self.k, name));
+                let ctx = lock_std(&CUR_CTX).clone();
+                if let Some(ctx) = ctx {
+                    if let Obj::Mutex(m) = &ctx.0.objs[mi] {
+                        let g = match m.lock() {
+                            Ok(g) => g,
+                            Err(p) => p.into_inner(),
+                        };
+                        drop(g);
+                    }
+                }
+            }
+        }
+    }
+}
+
+fn lazy_init(idx: usize) -> u64 {
+    init_mark();
+    let name = lock_std(&LAZY_NAMES)[idx].clone();
+    log(format!("O {} {} lazyinit {}", me(), my_k(), name));
+    7
+}
+fn lazy_init0() -> u64 {
+    lazy_init(0)
+}
+fn lazy_init1() -> u64 {
+    lazy_init(1)
+}
+static LAZY0: Lazy<u64> = Lazy::new(lazy_init0);
+static LAZY1: Lazy<u64> = Lazy::new(lazy_init1);
 
 fn me() -> usize {
     usize::from(shuttle::current::me())
@@ -49,31 +244,89 @@ fn clock_str() -> String {
     v.iter().map(|x| x.to_string()).collect::<Vec<_>>().join(",")
 }
 
-pub fn make_ctx(prog: Arc<Program>) -> Arc<Ss<Ctx>> {
+pub fn make_ctx(prog: Arc<Program>) -> (Arc<Ss<Ctx>>, Handles) {
     let mut objs = Vec::new();
-    for o in &prog.objs {
+    let mut hs = Handles::empty(prog.objs.len());
+    let mut tls_cfg: Vec<(String, TlsKind)> = Vec::new();
+    let mut lazy_names: Vec<String> = Vec::new();
+    let tls_names: Vec<&str> = prog.objs.iter().filter(|o| o.kind == "tls").map(|o| o.name.as_str()).collect();
+    for (i, o) in prog.objs.iter().enumerate() {
         let a0 = o.args.first().map(|s| s.as_str()).unwrap_or("");
         objs.push(match o.kind.as_str() {
             "atomic" => Obj::Atomic(AtomicU64::new(a0.parse().unwrap_or(0))),
             "mutex" => Obj::Mutex(Mutex::new(a0.parse().unwrap_or(0))),
             "rwlock" => Obj::RwLock(RwLock::new(a0.parse().unwrap_or(0))),
+            "sem" => {
+                let fair = o.args.get(1).map(|s| s.as_str()) == Some("fair");
+                Obj::Sem(BatchSemaphore::new(
+                    a0.parse().unwrap_or(0),
+                    if fair { Fairness::StrictlyFair } else { Fairness::Unfair },
+                ))
+            }
+            "chan" => {
+                if a0 == "unb" || a0.is_empty() {
+                    let (tx, rx) = channel::<u64>();
+                    hs.tx[i] = Some(Tx::A(tx));
+                    hs.rx[i] = Some(rx);
+                } else {
+                    let bound: usize = if a0 == "rdv" {
+                        0
+                    } else {
+                        a0.strip_prefix("cap:").and_then(|s| s.parse().ok()).unwrap_or(1)
+                    };
+                    let (tx, rx) = sync_channel::<u64>(bound);
+                    hs.tx[i] = Some(Tx::S(tx));
+                    hs.rx[i] = Some(rx);
+                }
+                Obj::Chan
+            }
+            "condvar" => Obj::Condvar(Condvar::new()),
+            "barrier" => Obj::Barrier(Barrier::new(a0.parse().unwrap_or(0))),
+            "once" => Obj::Once(Once::new(), std::cell::Cell::new(0)),
+            "tls" => {
+                let kind = if a0 == "log" {
+                    TlsKind::Log
+                } else if let Some(u) = a0.strip_prefix("touch:") {
+                    let ui = tls_names.iter().position(|n| *n == u).unwrap_or_else(|| panic!("vh: unknown tls {u}"));
+                    TlsKind::Touch(ui, u.to_string())
+                } else if let Some(m) = a0.strip_prefix("lock:") {
+                    TlsKind::Lock(prog.obj_index(m).unwrap_or_else(|| panic!("vh: unknown mutex {m}")))
+                } else {
+                    TlsKind::None
+                };
+                tls_cfg.push((o.name.clone(), kind));
+                assert!(tls_cfg.len() <= TLS_POOL, "vh: at most {TLS_POOL} tls objects");
+                Obj::Tls(tls_cfg.len() - 1)
+            }
+            "lazy" => {
+                lazy_names.push(o.name.clone());
+                assert!(lazy_names.len() <= LAZY_POOL, "vh: at most {LAZY_POOL} lazy objects");
+                Obj::Lazy(lazy_names.len() - 1)
+            }
             k => panic!("vh: unknown object kind {k}"),
         });
     }
+    *lock_std(&TLS_CFG) = tls_cfg;
+    lock_std(&TID_K).clear();
+    lock_std(&INIT_BY).clear();
+    *lock_std(&LAZY_NAMES) = lazy_names;
     let n = prog.tasks.len();
-    Arc::new(Ss(Ctx {
+    let ctx = Arc::new(Ss(Ctx {
         prog,
         objs,
         handles: std::sync::Mutex::new((0..n).map(|_| None).collect()),
         threads: std::sync::Mutex::new((0..n).map(|_| None).collect()),
-    }))
+    }));
+    // destructors need the object table after the last task closure has released it
+    *lock_std(&CUR_CTX) = Some(ctx.clone());
+    (ctx, hs)
 }
 
 /// The closure handed to `Runner::run` (task 0).
 pub fn main_body(prog: Arc<Program>) {
-    let ctx = make_ctx(prog);
+    let (ctx, hs) = make_ctx(prog);
     ctx.0.threads.lock().unwrap()[0] = Some(thread::current());
-    run_task(ctx, 0);
+    run_task(ctx, 0, hs);
 }
 
 fn obj<'a>(ctx: &'a Ctx, name: &str) -> (usize, &'a Obj) {
@@ -81,15 +334,48 @@ fn obj<'a>(ctx: &'a Ctx, name: &str) -> (usize, &'a Obj) {
     (i, &ctx.objs[i])
 }
 
-pub fn run_task(ctx: Arc<Ss<Ctx>>, k: usize) {
+fn log_op(prog: &Program, st: &mut TaskSt, pc: usize, res: String) {
+    log(format!("O {} {} {} {}", me(), st.k, pc, res));
+    if prog.clocks {
+        log(format!("C {} {} {}", me(), pc, clock_str()));
+    }
+    st.last = res;
+}
+
+pub fn run_task(ctx: Arc<Ss<Ctx>>, k: usize, hs: Handles) {
     let prog = ctx.0.prog.clone();
     let ops = &prog.tasks[k].ops;
+    lock_std(&TID_K).push((me(), k));
     let mut st = TaskSt {
         k,
         last: String::new(),
         guards: Vec::new(),
+        tx: hs.tx,
+        rx: hs.rx,
     };
-    let mut pc = 0usize;
+    run_ops(&ctx, &mut st, ops, 0, None);
+    // guards are dropped in reverse order of acquisition, as Rust would
+    while let Some(g) = st.guards.pop() {
+        drop(g);
+    }
+    // then the remaining channel endpoints: per channel in declaration order, sender then receiver
+    for i in 0..st.tx.len() {
+        drop(st.tx[i].take());
+        drop(st.rx[i].take());
+    }
+    log(format!("O {} {} end", me(), k));
+}
+
+/// Runs `ops[pc..]`. Inside the closure of a `thread::scope` (`scope` is `Some`) it stops at
+/// `scope_end` and returns that index; otherwise it runs to the end.
+fn run_ops<'scope, 'env>(
+    ctx: &Arc<Ss<Ctx>>,
+    st: &mut TaskSt,
+    ops: &[Op],
+    mut pc: usize,
+    scope: Option<&'scope Scope<'scope, 'env>>,
+) -> usize {
+    let prog = ctx.0.prog.clone();
     while pc < ops.len() {
         let op = &ops[pc];
         if op.name == "if" {
@@ -100,28 +386,78 @@ pub fn run_task(ctx: Arc<Ss<Ctx>>, k: usize) {
             pc += 1;
             continue;
         }
-        let res = exec_op(&ctx, &mut st, op);
-        log(format!("O {} {} {} {}", me(), k, pc, res));
-        if prog.clocks {
-            log(format!("C {} {} {}", me(), pc, clock_str()));
+        if op.name == "scope_end" && scope.is_some() {
+            // the closure returns; `thread::scope` then waits for the scoped threads
+            return pc;
         }
-        st.last = res;
+        if op.name == "scope_begin" {
+            let begin = pc;
+            let end = thread::scope(|s| {
+                log_op(&prog, st, begin, "ok".into());
+                run_ops(ctx, st, ops, begin + 1, Some(s))
+            });
+            if end < ops.len() {
+                log_op(&prog, st, end, "ok".into());
+                pc = end + 1;
+            } else {
+                pc = end;
+            }
+            continue;
+        }
+        let res = exec_op(ctx, st, op, pc, scope);
+        log_op(&prog, st, pc, res);
         pc += 1;
     }
-    // guards are dropped in reverse order of acquisition, as Rust would
-    while let Some(g) = st.guards.pop() {
-        drop(g);
-    }
-    log(format!("O {} {} end", me(), k));
+    pc
 }
 
-fn exec_op(ctx: &Arc<Ss<Ctx>>, st: &mut TaskSt, op: &Op) -> String {
+fn is_tx_op(n: &str) -> bool {
+    n == "send" || n == "try_send" || n == "drop_tx"
+}
+fn is_rx_op(n: &str) -> bool {
+    n == "recv" || n == "try_recv" || n == "drop_rx"
+}
+fn ops_use(ops: &[Op], pred: fn(&str) -> bool, cname: &str) -> bool {
+    ops.iter().any(|o| pred(&o.name) && o.arg(0) == cname)
+}
+
+/// The handle ownership rule, applied before a spawn of body `child` by the op at `pc`.
+fn transfer_handles(c: &Ctx, st: &mut TaskSt, pc: usize, child: usize) -> Handles {
+    let prog = &c.prog;
+    let mut h = Handles::empty(prog.objs.len());
+    let child_ops = &prog.tasks[child].ops;
+    let my_rest = &prog.tasks[st.k].ops[(pc + 1).min(prog.tasks[st.k].ops.len())..];
+    for (i, o) in prog.objs.iter().enumerate() {
+        if o.kind != "chan" {
+            continue;
+        }
+        if st.tx[i].is_some() && ops_use(child_ops, is_tx_op, &o.name) {
+            h.tx[i] = Some(st.tx[i].as_ref().unwrap().clone_tx());
+        }
+        if st.rx[i].is_some() && ops_use(child_ops, is_rx_op, &o.name) && !ops_use(my_rest, is_rx_op, &o.name) {
+            h.rx[i] = st.rx[i].take();
+        }
+    }
+    h
+}
+
+fn exec_op<'scope, 'env>(
+    ctx: &Arc<Ss<Ctx>>,
+    st: &mut TaskSt,
+    op: &Op,
+    pc: usize,
+    scope: Option<&'scope Scope<'scope, 'env>>,
+) -> String {
     let c = &ctx.0;
     match op.name.as_str() {
         "spawn" => {
             let k = op.num(0) as usize;
             let ctx2 = ctx.clone();
-            let h = thread::spawn(move || run_task(ctx2, k));
+            let hs = Ss(transfer_handles(c, st, pc, k));
+            let h = thread::spawn(move || {
+                let hs = hs;
+                run_task(ctx2, k, hs.0)
+            });
             c.threads.lock().unwrap()[k] = Some(h.thread().clone());
             c.handles.lock().unwrap()[k] = Some(h);
             "ok".into()
@@ -251,18 +587,25 @@ fn exec_op(ctx: &Arc<Ss<Ctx>>, st: &mut TaskSt, op: &Op) -> String {
                 _ => panic!("vh: not a rwlock"),
             };
             let l: &'static RwLock<u64> = unsafe { std::mem::transmute(l) };
+            use std::sync::TryLockError;
             match op.name.as_str() {
                 "read" => {
-                    let g = l.read().unwrap();
+                    let (g, tag) = match l.read() {
+                        Ok(g) => (g, "v"),
+                        Err(p) => (p.into_inner(), "poisoned"),
+                    };
                     let v = *g;
                     st.guards.push(Guard::R(i, g));
-                    format!("v:{}", v)
+                    format!("{}:{}", tag, v)
                 }
                 "write" => {
-                    let g = l.write().unwrap();
+                    let (g, tag) = match l.write() {
+                        Ok(g) => (g, "v"),
+                        Err(p) => (p.into_inner(), "poisoned"),
+                    };
                     let v = *g;
                     st.guards.push(Guard::W(i, g));
-                    format!("v:{}", v)
+                    format!("{}:{}", tag, v)
                 }
                 "tryread" => match l.try_read() {
                     Ok(g) => {
@@ -270,7 +613,13 @@ fn exec_op(ctx: &Arc<Ss<Ctx>>, st: &mut TaskSt, op: &Op) -> String {
                         st.guards.push(Guard::R(i, g));
                         format!("v:{}", v)
                     }
-                    Err(_) => "wouldblock".into(),
+                    Err(TryLockError::Poisoned(p)) => {
+                        let g = p.into_inner();
+                        let v = *g;
+                        st.guards.push(Guard::R(i, g));
+                        format!("poisoned:{}", v)
+                    }
+                    Err(TryLockError::WouldBlock) => "wouldblock".into(),
                 },
                 _ => match l.try_write() {
                     Ok(g) => {
@@ -278,7 +627,13 @@ fn exec_op(ctx: &Arc<Ss<Ctx>>, st: &mut TaskSt, op: &Op) -> String {
                         st.guards.push(Guard::W(i, g));
                         format!("v:{}", v)
                     }
-                    Err(_) => "wouldblock".into(),
+                    Err(TryLockError::Poisoned(p)) => {
+                        let g = p.into_inner();
+                        let v = *g;
+                        st.guards.push(Guard::W(i, g));
+                        format!("poisoned:{}", v)
+                    }
+                    Err(TryLockError::WouldBlock) => "wouldblock".into(),
                 },
             }
         }
@@ -318,6 +673,225 @@ fn exec_op(ctx: &Arc<Ss<Ctx>>, st: &mut TaskSt, op: &Op) -> String {
                 None => "noguard".into(),
             }
         }
+        // ---- BatchSemaphore used directly
+        "acquire" | "try_acquire" | "release" | "close" | "avail" => {
+            let (_, o) = obj(c, op.arg(0));
+            let s = match o {
+                Obj::Sem(s) => s,
+                _ => panic!("vh: not a sem"),
+            };
+            let n = op.num(1) as usize;
+            match op.name.as_str() {
+                "acquire" => match s.acquire_blocking(n) {
+                    Ok(()) => "ok".into(),
+                    Err(_) => "closed".into(),
+                },
+                "try_acquire" => match s.try_acquire(n) {
+                    Ok(()) => "ok".into(),
+                    Err(TryAcquireError::NoPermits) => "nopermits".into(),
+                    Err(TryAcquireError::Closed) => "closed".into(),
+                },
+                "release" => {
+                    s.release(n);
+                    "ok".into()
+                }
+                "close" => {
+                    s.close();
+                    "ok".into()
+                }
+                _ => format!("v:{}", s.available_permits()),
+            }
+        }
+        // ---- mpsc channels
+        "send" | "try_send" => {
+            let (i, _) = obj(c, op.arg(0));
+            let v = op.num(1);
+            match &st.tx[i] {
+                None => "nosender".into(),
+                Some(Tx::A(s)) => match s.send(v) {
+                    Ok(()) => "ok".into(),
+                    Err(_) => "err:disconnected".into(),
+                },
+                Some(Tx::S(s)) => {
+                    if op.name == "send" {
+                        match s.send(v) {
+                            Ok(()) => "ok".into(),
+                            Err(_) => "err:disconnected".into(),
+                        }
+                    } else {
+                        match s.try_send(v) {
+                            Ok(()) => "ok".into(),
+                            Err(TrySendError::Full(_)) => "err:full".into(),
+                            Err(TrySendError::Disconnected(_)) => "err:disconnected".into(),
+                        }
+                    }
+                }
+            }
+        }
+        "recv" | "try_recv" => {
+            let (i, _) = obj(c, op.arg(0));
+            match &st.rx[i] {
+                None => "norecv".into(),
+                Some(r) => {
+                    if op.name == "recv" {
+                        match r.recv() {
+                            Ok(v) => format!("v:{}", v),
+                            Err(_) => "err:disconnected".into(),
+                        }
+                    } else {
+                        match r.try_recv() {
+                            Ok(v) => format!("v:{}", v),
+                            Err(TryRecvError::Empty) => "err:empty".into(),
+                            Err(TryRecvError::Disconnected) => "err:disconnected".into(),
+                        }
+                    }
+                }
+            }
+        }
+        "drop_tx" => {
+            let (i, _) = obj(c, op.arg(0));
+            match st.tx[i].take() {
+                None => "nosender".into(),
+                Some(t) => {
+                    drop(t);
+                    "ok".into()
+                }
+            }
+        }
+        "drop_rx" => {
+            let (i, _) = obj(c, op.arg(0));
+            match st.rx[i].take() {
+                None => "norecv".into(),
+                Some(r) => {
+                    drop(r);
+                    "ok".into()
+                }
+            }
+        }
+        // ---- condvar
+        "wait" => {
+            let (_, o) = obj(c, op.arg(0));
+            let cv = match o {
+                Obj::Condvar(cv) => cv,
+                _ => panic!("vh: not a condvar"),
+            };
+            let (mi, _) = obj(c, op.arg(1));
+            let pos = st.guards.iter().rposition(|g| matches!(g, Guard::M(j, _) if *j == mi));
+            match pos {
+                None => "noguard".into(),
+                Some(p) => {
+                    let g = match st.guards.remove(p) {
+                        Guard::M(_, g) => g,
+                        _ => unreachable!(),
+                    };
+                    match cv.wait(g) {
+                        Ok(g) => {
+                            let v = *g;
+                            st.guards.push(Guard::M(mi, g));
+                            format!("v:{}", v)
+                        }
+                        Err(p) => {
+                            let g = p.into_inner();
+                            let v = *g;
+                            st.guards.push(Guard::M(mi, g));
+                            format!("poisoned:{}", v)
+                        }
+                    }
+                }
+            }
+        }
+        "notify_one" | "notify_all" => {
+            let (_, o) = obj(c, op.arg(0));
+            let cv = match o {
+                Obj::Condvar(cv) => cv,
+                _ => panic!("vh: not a condvar"),
+            };
+            if op.name == "notify_one" {
+                cv.notify_one();
+            } else {
+                cv.notify_all();
+            }
+            "ok".into()
+        }
+        // ---- barrier
+        "bwait" => {
+            let (_, o) = obj(c, op.arg(0));
+            let b = match o {
+                Obj::Barrier(b) => b,
+                _ => panic!("vh: not a barrier"),
+            };
+            if b.wait().is_leader() {
+                "leader".into()
+            } else {
+                "follower".into()
+            }
+        }
+        // ---- once
+        "call_once" | "is_completed" | "once_val" => {
+            let (_, o) = obj(c, op.arg(0));
+            let (once, cell) = match o {
+                Obj::Once(once, cell) => (once, cell),
+                _ => panic!("vh: not a once"),
+            };
+            match op.name.as_str() {
+                "call_once" => {
+                    let mut ran = false;
+                    let k = st.k;
+                    once.call_once(|| {
+                        ran = true;
+                        log(format!("O {} {} init {}", me(), k, op.arg(0)));
+                        cell.set(op.num(1));
+                    });
+                    if ran {
+                        "ran".into()
+                    } else {
+                        "skipped".into()
+                    }
+                }
+                "is_completed" => format!("{}", once.is_completed()),
+                _ => format!("v:{}", cell.get()),
+            }
+        }
+        // ---- lazy_static
+        "lazy_get" => {
+            let (_, o) = obj(c, op.arg(0));
+            let idx = match o {
+                Obj::Lazy(i) => *i,
+                _ => panic!("vh: not a lazy"),
+            };
+            init_clear();
+            let _v: u64 = if idx == 0 { *LAZY0.get() } else { *LAZY1.get() };
+            if init_take() {
+                "init".into()
+            } else {
+                "seen".into()
+            }
+        }
+        // ---- thread-locals
+        "tls_with" => {
+            let (_, o) = obj(c, op.arg(0));
+            let idx = match o {
+                Obj::Tls(i) => *i,
+                _ => panic!("vh: not a tls"),
+            };
+            tls_try_with(idx, st.k).into()
+        }
+        // ---- thread::scope (scope_begin / scope_end inside a scope are handled by run_ops)
+        "scope_spawn" => match scope {
+            None => "noscope".into(),
+            Some(s) => {
+                let k = op.num(0) as usize;
+                let ctx2 = ctx.clone();
+                let hs = Ss(transfer_handles(c, st, pc, k));
+                let h = s.spawn(move || {
+                    let hs = hs;
+                    run_task(ctx2, k, hs.0)
+                });
+                c.threads.lock().unwrap()[k] = Some(h.thread().clone());
+                "ok".into()
+            }
+        },
+        "scope_end" => "noscope".into(),
         other => panic!("vh: unknown op {other} (task {})", st.k),
     }
 }
